@@ -96,6 +96,20 @@ func Run(p *Prop) {
 		Cleanup()
 		os.Exit(rc)
 	}
+	if os.Getenv("MC_REAL_ONLY") != "" {
+		// replay of a real-binary violation: only the end-to-end cases
+		r := ev.NewRun(p.ID, tier())
+		if p.Post != nil {
+			p.Post(r)
+		}
+		Cleanup()
+		if r.NViolations() > 0 {
+			fmt.Printf("VIOLATION property=%s replay=%s\n", p.ID, os.Getenv("MC_REAL_ONLY"))
+			os.Exit(1)
+		}
+		fmt.Println("not reproduced")
+		os.Exit(0)
+	}
 	if os.Getenv("MC_LIST") != "" {
 		fmt.Fprintln(ResultWriter, len(filter(p.Scenarios(tier()))))
 		Cleanup()
